@@ -11,6 +11,7 @@
 //	sa  the same, with the next OnActivate of that node failing
 //	sp  the same, with the next plain registry put of that node failing (publication failure → rollback)
 //	d   grainPID.deactivate on the process in the node's local table
+//	t   time passes: every registry record written with an expiry option disappears (none is, in the code as it is)
 //
 // schedule points: op:<op> (start of an operation), Load:running + RLock:mu/Lock:mu
 // (every registry operation of internal/cluster/cluster.go; the store access itself
@@ -44,7 +45,7 @@ func (o *world) Do(tid int, op string) string {
 	n := o.nodes[idx]
 	ctx := context.Background()
 	switch op {
-	case "s", "sa", "sp", "d":
+	case "s", "sa", "sp", "d", "t":
 	default:
 		return "bad-op"
 	}
@@ -64,6 +65,11 @@ func (o *world) Do(tid int, op string) string {
 		return r
 	case "d":
 		return n.Deactivate(ctx)
+	case "t":
+		if k := o.reg.ExpireLeases(); k > 0 {
+			return "expired" + strconv.Itoa(k)
+		}
+		return "tick"
 	}
 	return "bad-op"
 }
